@@ -110,6 +110,7 @@ impl DependencyProvider for TableProvider {
         self.log.borrow_mut().push(format!("c{}", name.0));
         self.request_started();
         self.gate(format!("c{}", name.0)).await;
+        if self.gates.is_some() { self.log.borrow_mut().push(format!("C{}", name.0)); } // answer obtained
         let p = self.u.pkgs.get(&name.0)?;
         Some(Candidates {
             candidates: p.cands.iter().map(|&s| SolvableId(s)).collect(),
@@ -136,6 +137,7 @@ impl DependencyProvider for TableProvider {
         self.log.borrow_mut().push(format!("d{}", solvable.0));
         self.request_started();
         self.gate(format!("d{}", solvable.0)).await;
+        if self.gates.is_some() { self.log.borrow_mut().push(format!("D{}", solvable.0)); } // answer obtained
         match self.u.solvs.get(&solvable.0).map(|s| &s.deps) {
             Some(Deps::Known { reqs, cons }) => Dependencies::Known(KnownDependencies {
                 requirements: reqs.iter().map(to_requirement).collect(),
